@@ -105,6 +105,9 @@ def mk_value(spec):
 
 
 def mk_sample_array(samples):
+    if any(s[0] == "onan" for s in samples):
+        # round 7 (C18_5): an object-dtype text curve with a missing sample (a float NaN among str objects)
+        return np.array([s[1] if s[0] == "t" else float("nan") if s[0] == "onan" else mk_value(s) for s in samples], dtype=object)
     if any(s[0] == "t" for s in samples):
         return np.array([s[1] if s[0] == "t" else repr(mk_value(s)) for s in samples])
     return np.array([mk_value(s) for s in samples], dtype=np.float64)
@@ -1312,6 +1315,9 @@ def rnd_samples(rng, n, kind, allow_inf):
     return out
 
 
+OBJECT_NAN = True
+
+
 def text_curve_ok(samples):
     """a text curve of the domain has at least one sample float() rejects"""
     for s in samples:
@@ -1338,6 +1344,8 @@ def gen_build_spec(rng, allow_inf=True, big=True, xlsx=False):
         smp = rnd_samples(rng, nrows, kind, allow_inf)
         if kind == "t" and not text_curve_ok(smp):
             smp[0] = ["t", "abc"]
+        if kind == "t" and OBJECT_NAN and nrows > 1 and rng.random() < 0.35:
+            smp[rng.randrange(1, nrows)] = ["onan"]
         if j == 0 and rng.random() < 0.8:
             smp = [["f", (100.0 + 0.5 * i).hex()] for i in range(nrows)]
         curves.append([rng.choice(MNEMS) if j else rng.choice(["DEPT", "DEPTH", "TIME", "DEPT", ""]),
